@@ -148,7 +148,9 @@ def _scripted_wrapper():
     return ScriptedWrapper
 
 
-VACUOUS = ["repeated-point:ConvexFunction", "repeated-point:ConvexLipschitzFunction",
+VACUOUS = ["unevaluated:LinearOperator", "unevaluated:SymmetricLinearOperator",
+           "unevaluated:SkewSymmetricLinearOperator", "A-only:LinearOperator", "T-only:LinearOperator",
+           "repeated-point:ConvexFunction", "repeated-point:ConvexLipschitzFunction",
            "repeated-point:ConvexIndicatorFunction", "quadratic", "stationary:ConvexQGFunction"]
 
 
@@ -176,6 +178,16 @@ def solve_case(desc):
         func = K.declare(pep, rng, name, K.draw_params(rng, name), False)
         func.oracle(Point())
         func.oracle(Point())
+    elif sc.startswith("unevaluated:") or sc in ("A-only:LinearOperator", "T-only:LinearOperator"):
+        # an operator class with an LMI and NO sample in (one of) its lists: no 0 x 0 LMI may reach the solver
+        mode, name = sc.split(":")
+        pep = PEP()
+        func = K.declare(pep, rng, name, K.draw_params(rng, name), False)
+        if mode == "A-only":
+            func.gradient(Point())
+            func.gradient(Point())
+        elif mode == "T-only":
+            func.T.gradient(Point())
     elif sc.startswith("stationary:"):
         name = sc.split(":")[1]
         pep = PEP()
@@ -186,12 +198,6 @@ def solve_case(desc):
         name = sc
         func, ctx = K.build_function(rng, name)
         pep = ctx["pep"]
-        # (an LMI over an empty list of samples is a 0 x 0 matrix, which PEP.check_feasibility cannot handle:
-        # outside C17, avoided here)
-        if not func.list_of_points:
-            func.oracle(Point())
-        if name == "LinearOperator" and not func.T.list_of_points:
-            func.T.gradient(Point())
     x0 = Point()
     pep.set_initial_condition(x0 ** 2 <= 1)
     pep.set_performance_metric(x0 ** 2)
